@@ -581,6 +581,7 @@ namespace sim
             res = -99;
             exc = "unknown";
         }
+        vm->last_result = res;
         g->ev({ "act", thread, vm->id, name, res, (int)rt.runtime_state(), (uint64_t)(rt.context_end() - rt.context_begin()),
             rt.__runtime_error() ? 1 : 0, (uint64_t)rt.log_messages.size(), g->instr, g->clock_ns, exc });
     }
@@ -650,6 +651,12 @@ namespace sim
         }
         else if (d == "load") step_load(st);
         else if (d == "action") do_action(g->vm_by_id(st.at("vm").get<std::string>()), st.at("name").get<std::string>(), thread);
+        else if (d == "action_if_failed")
+        {
+            // what an embedder does after a failed run (cli.cpp / sqfvm.cpp): abort when start did not end ok/empty
+            auto vm = g->vm_by_id(st.at("vm").get<std::string>());
+            if (vm->last_result == -2 || vm->last_result == 1 || vm->last_result == 2) do_action(vm, st.at("name").get<std::string>(), thread);
+        }
         else if (d == "clock_advance")
         {
             g->clock_ns += st.at("ns").get<int64_t>();
